@@ -148,6 +148,10 @@ pub struct XEnc {
     pub dim: DimMode,
     pub target: TargetMode,
     pub upper_parts: bool,
+    /// the top-level folder itself in another case (XL/...), on top of `upper_parts`
+    pub upper_root: bool,
+    /// applyNumberFormat on cellXfs entries: 0 = "1", 1 = attribute absent, 2 = "0" (the number format still applies: the apply* attributes are hints for the style dialog)
+    pub apply_nf: u8,
     pub method: Method,
     /// write t="n" on numeric cells instead of leaving t out
     pub explicit_t_n: bool,
@@ -160,12 +164,18 @@ pub struct XEnc {
     /// every XML part indented: a line break and two spaces per level between adjacent tags (never between an opening tag
     /// and its own closing tag, never next to text)
     pub indent: bool,
+    /// in every .rels part write Target before Type (Id, Target, Type as some writers do)
+    pub rels_target_first: bool,
+    /// <row> elements never carry r (the cells still do, unless cell_r is implicit too)
+    pub rows_never_r: bool,
+    /// formula text and defined-name text are interrupted: a CDATA section in the middle of <f>, a comment in the middle of <definedName>
+    pub split_text_nodes: bool,
 }
 impl Default for XEnc {
     fn default() -> Self {
         XEnc {
             prefix: false, row_r: RMode::Explicit, cell_r: RMode::Explicit, dim: DimMode::Exact, target: TargetMode::Relative,
-            upper_parts: false, method: Method::Deflated, explicit_t_n: false, empty_rows: false, reorder_members: false, rid_shuffle: false, indent: false,
+            upper_parts: false, upper_root: false, apply_nf: 0, method: Method::Deflated, explicit_t_n: false, empty_rows: false, reorder_members: false, rid_shuffle: false, indent: false, rels_target_first: false, rows_never_r: false, split_text_nodes: false,
         }
     }
 }
@@ -257,6 +267,8 @@ pub fn sheet_xml(sh: &XSheet, enc: &XEnc, table_rids: &[String]) -> String {
     o.push_str(&format!("{}>{}/>{}", tg.o("sheetViews"), tg.o("sheetView workbookViewId=\"0\""), tg.c("sheetViews")));
     o.push_str(&format!("{}>", tg.o("sheetData")));
     let mut cursor_row = 0u32;
+    // false once an r-less row element sat at a row other than the one after its predecessor
+    let mut chain_known = true;
     let mut i = 0;
     while i < cells.len() {
         let row = cells[i].row;
@@ -265,14 +277,18 @@ pub fn sheet_xml(sh: &XSheet, enc: &XEnc, table_rids: &[String]) -> String {
                 o.push_str(&format!("{} r=\"{}\"/>", tg.o("row"), r + 1));
             }
         }
-        let implicit_row = enc.row_r == RMode::Implicit && row == cursor_row;
+        let implicit_row = (enc.row_r == RMode::Implicit && row == cursor_row) || enc.rows_never_r;
+        // the row a reader assumes for an element without r is the one after the previous row element; cells of a row whose
+        // own position is only given by its cells must carry r themselves
+        let row_known = !implicit_row || (chain_known && row == cursor_row);
+        if implicit_row && !row_known { chain_known = false; } else if !implicit_row { chain_known = true; }
         if implicit_row { o.push_str(&format!("{}>", tg.o("row"))); } else { o.push_str(&format!("{} r=\"{}\">", tg.o("row"), row + 1)); }
         let mut cursor_col = 0u32;
         while i < cells.len() && cells[i].row == row {
             let c = &cells[i];
             let mut attrs = String::new();
             // a cell without r sits at (row cursor, column cursor): legal only where that is the cell's position
-            let implicit_cell = enc.cell_r == RMode::Implicit && c.col == cursor_col;
+            let implicit_cell = enc.cell_r == RMode::Implicit && c.col == cursor_col && row_known;
             if !implicit_cell { attrs.push_str(&format!(" r=\"{}\"", a1(c.row, c.col))); }
             if let Some(s) = c.style { attrs.push_str(&format!(" s=\"{s}\"")); }
             let t = match &c.val {
@@ -289,6 +305,11 @@ pub fn sheet_xml(sh: &XSheet, enc: &XEnc, table_rids: &[String]) -> String {
             let mut body = String::new();
             if let Some(f) = &c.formula {
                 match f {
+                    XFormula::Plain(s) if enc.split_text_nodes && s.chars().count() >= 3 => {
+                        // first character as text, second inside a CDATA section, the rest as text after a comment
+                        let cs: Vec<char> = s.chars().collect();
+                        body.push_str(&format!("{}>{}<![CDATA[{}]]><!-- rhs -->{}{}", tg.o("f"), esc_text(&cs[0].to_string()), cs[1], esc_text(&cs[2..].iter().collect::<String>()), tg.c("f")));
+                    }
                     XFormula::Plain(s) => body.push_str(&format!("{}>{}{}", tg.o("f"), esc_text(s), tg.c("f"))),
                     XFormula::SharedMaster { si, rf, text } => body.push_str(&format!("{} t=\"shared\" ref=\"{}\" si=\"{}\">{}{}", tg.o("f"), rf, si, esc_text(text), tg.c("f"))),
                     XFormula::SharedChild { si } => body.push_str(&format!("{} t=\"shared\" si=\"{}\"/>", tg.o("f"), si)),
@@ -357,7 +378,8 @@ pub fn styles_xml(st: &XStyles, enc: &XEnc) -> String {
     o.push_str(&format!("{} count=\"{}\">", tg.o("cellXfs"), st.cell_xfs.len()));
     for id in &st.cell_xfs {
         if *id == 0 && st.omit_general_numfmt { o.push_str(&format!("{} fontId=\"0\" fillId=\"0\" borderId=\"0\" xfId=\"0\" applyFont=\"1\"/>", tg.o("xf"))); continue; }
-        o.push_str(&format!("{} numFmtId=\"{}\" fontId=\"0\" fillId=\"0\" borderId=\"0\" xfId=\"0\" applyNumberFormat=\"1\"/>", tg.o("xf"), id));
+        let apply = match enc.apply_nf { 0 => " applyNumberFormat=\"1\"", 1 => "", _ => " applyNumberFormat=\"0\"" };
+        o.push_str(&format!("{} numFmtId=\"{}\" fontId=\"0\" fillId=\"0\" borderId=\"0\" xfId=\"0\"{apply}/>", tg.o("xf"), id));
     }
     o.push_str(&tg.c("cellXfs"));
     o.push_str(&tg.c("styleSheet"));
@@ -389,7 +411,10 @@ pub fn workbook_xml(b: &XBook, enc: &XEnc) -> String {
     o.push_str(&tg.c("sheets"));
     if !b.defined_names.is_empty() {
         o.push_str(&format!("{}>", tg.o("definedNames")));
-        for (n, v) in &b.defined_names { o.push_str(&format!("{} name=\"{}\">{}{}", tg.o("definedName"), esc(n), esc_text(v), tg.c("definedName"))); }
+        for (n, v) in &b.defined_names {
+            let body = if enc.split_text_nodes && v.chars().count() >= 2 { let k = v.char_indices().nth(v.chars().count() / 2).unwrap().0; format!("{}<!-- c -->{}", esc_text(&v[..k]), esc_text(&v[k..])) } else { esc_text(v) };
+            o.push_str(&format!("{} name=\"{}\">{}{}", tg.o("definedName"), esc(n), body, tg.c("definedName")));
+        }
         o.push_str(&tg.c("definedNames"));
     }
     o.push_str(&tg.c("workbook"));
@@ -460,7 +485,22 @@ pub fn parts(b: &XBook, enc: &XEnc) -> Vec<(String, Vec<u8>)> {
     head.push(("xl/workbook.xml".into(), workbook_xml(b, enc)));
     head.push(("xl/_rels/workbook.xml.rels".into(), rels));
     let mut all: Vec<(String, Vec<u8>)> = vec![];
-    let to_b = |v: Vec<(String, String)>| v.into_iter().map(|(a, b)| (a, if enc.indent { indent_xml(&b) } else { b }.into_bytes())).collect::<Vec<_>>();
+    let reorder_rels = |name: &str, x: String| -> String {
+        if !enc.rels_target_first || !name.ends_with(".rels") { return x; }
+        let mut out = String::new();
+        let mut rest = x.as_str();
+        while let Some(p) = rest.find("<Relationship Id=") {
+            out.push_str(&rest[..p]);
+            let e = p + rest[p..].find("/>").unwrap() + 2;
+            let el = &rest[p..e];
+            let (ty, ta) = (el.find(" Type=\"").unwrap(), el.find(" Target=\"").unwrap());
+            out.push_str(&format!("{}{}{}/>", &el[..ty], &el[ta..el.len() - 2], &el[ty..ta]));
+            rest = &rest[e..];
+        }
+        out.push_str(rest);
+        out
+    };
+    let to_b = |v: Vec<(String, String)>| v.into_iter().map(|(a, b)| { let b = reorder_rels(&a, b); (a, if enc.indent { indent_xml(&b) } else { b }.into_bytes()) }).collect::<Vec<_>>();
     all.extend(to_b(head));
     if enc.reorder_members {
         all.extend(to_b(sheet_parts));
@@ -477,6 +517,7 @@ pub fn parts(b: &XBook, enc: &XEnc) -> Vec<(String, Vec<u8>)> {
             if n.starts_with("xl/") && !n.contains("_rels") { *n = format!("xl/{}", n[3..].to_ascii_uppercase()); }
         }
     }
+    if enc.upper_root { for (n, _) in all.iter_mut() { if n.starts_with("xl/") { *n = format!("XL/{}", &n[3..]); } } }
     all
 }
 
@@ -497,7 +538,7 @@ pub fn indent_xml(x: &str) -> String {
             let end = i + b[i..].iter().position(|c| *c == b'>').unwrap();
             let tag = &x[i..=end];
             let closing = tag.starts_with("</");
-            let selfc = tag.ends_with("/>") || tag.starts_with("<?");
+            let selfc = tag.ends_with("/>") || tag.starts_with("<?") || tag.starts_with("<!--");
             if closing { depth = depth.saturating_sub(1); }
             let after_text = std::mem::replace(&mut text_before, false);
             if i > 0 && b[i - 1] == b'>' && !after_text && !(closing && prev_open) && !x[..i].ends_with("?>\n") { out.push('\n'); for _ in 0..depth { out.push_str("  "); } }
